@@ -513,6 +513,17 @@ func dateFilterCases(r *Run, g *RNG) {
 		emit("string-receiver", VStr(s), VStr("%c %Z %z"))
 		convTime("string-receiver", VStr(s))
 	}
+	// how a value can begin: the first field of every layout (weekday or month name in any case, two-digit day and a blank,
+	// four-digit year and `-` or a digit) and the near misses, each continued in several ways
+	for _, a := range []string{"", "M", "Mo", "Mon", "mon", "MON", "mOn", "Mom", "Mo\x6e", "Monday", "monday,", "Sun", "Tue", "Wed", "Thu", "Fri", "Sat", "Sa", "Sax", "Jan", "jan", "JAN", "January", "Feb", "Mar", "March", "Apr", "May", "may",
+		"Jun", "Jul", "Aug", "Sep", "Sept", "Oct", "Nov", "Dec", "dec", "Dez", "\x4dan", "m\xefn", "-an", "Now", "now", "no", "nov", "1", "1 ", "12", "12 ", "12x", "1x", "1 J", "02 Jan", "123", "123 ", "1234", "1234-", "1234x", "12345", "1234 ", "123-", "12-4",
+		"2020", "2020-", "20200", "2020T", "+020-01-02", "-020-01-02", " 2020", "x2020-01-02", "０1", "٢٠", "\xff", "\x00", "T", "Z", "é"} {
+		for _, b := range []string{"", " ", " 2, 2006", " 2 2006", " 02 Jan 2006 15:04:05 -0700", ", 02 Jan 2006 15:04:05 UTC", " Jan  2 15:04:05 2006", " 2006", " January 2006", "uary 2, 2006", "-01-02", "01-02", "0102T030405Z"} {
+			recv := VStr(a + b)
+			emit("layout-start", recv, VStr("%s"))
+			convTime("layout-start", recv)
+		}
+	}
 	t0 := VTime(1577934245)
 	for _, recv := range append(fullUniverse(), VNil(), t0, VPtr(t0), VDrop(t0), VDrop(VDrop(t0)), VPtr(VDrop(t0)), VAnys(t0), VStrMap(SKV("t", t0)), VBytes("2020-01-02"), VDrop(VStr("2020-01-02")), VPtr(VStr("2020-01-02")),
 		VStruct(Field{"t", t0}), VMapSlice(KV(t0, t0)), VKeyed(Field{"t", t0}), VAnys(VDrop(t0)), VAnys(VPtr(t0)), VStrMap(SKV("d", VDrop(VAnys(t0)))), VArr(TAny, t0, VNil())) {
